@@ -62,7 +62,14 @@ ByPlid(r, x) == {f.eid : f \in {g \in Pels(r) : g.plid = x}}
 ByBmc(r, n) == {f.eid : f \in {g \in Pels(r) : g.bmc = n}}
 ByName(r, id) == {f.eid : f \in {g \in Pels(r) : PD!Contains(g.name, id)}}
 BySrc(r, s) == {f.eid : f \in {g \in Pels(r) : PD!Contains(g.ref, s)}}
-NotExcluded(r, codes) == {f.eid : f \in {g \in Pels(r) : g.ref \notin SeqRange(codes)}}
+\* --src-exclude: the file names reference codes, one per line.  A PEL whose reference code IS one of the
+\* lines must not be listed; one whose reference code occurs nowhere in the file must be listed; a code that
+\* is only part of a longer line is "in the file" under one reading and not under another - not demanded.
+MustExclude(r, codes) == {f.eid : f \in {g \in Pels(r) : g.ref \in SeqRange(codes)}}
+MustList(r, codes) == {f.eid : f \in {g \in Pels(r) : \A k \in 1..Len(codes) : ~PD!Contains(codes[k], g.ref)}}
+SrcExcludeOK(r, codes) == /\ MustList(r, codes) \subseteq SeqRange(r.result)
+                          /\ SeqRange(r.result) \cap MustExclude(r, codes) = {}
+                          /\ SeqRange(r.result) \subseteq {f.eid : f \in Pels(r)}
 
 C10Failing(r) ==
     LET q == r.q IN
@@ -70,7 +77,7 @@ C10Failing(r) ==
             "NoDuplicates"} :
        \/ x = "PlidExact" /\ q.kind = "plid" /\ SeqRange(r.result) # ByPlid(r, q.x)
        \/ x = "SrcExact" /\ q.kind = "src" /\ SeqRange(r.result) # BySrc(r, q.s)
-       \/ x = "SrcExcludeExact" /\ q.kind = "srcex" /\ SeqRange(r.result) # NotExcluded(r, q.codes)
+       \/ x = "SrcExcludeExact" /\ q.kind = "srcex" /\ ~SrcExcludeOK(r, q.codes)
        \/ x = "NoDuplicates" /\ Cardinality(SeqRange(r.result)) # Len(r.result)
        \/ x = "BmcIdFound" /\ q.kind = "bmc"
              /\ ~ IF ByBmc(r, q.n) = {} THEN r.shown = <<>> ELSE (Len(r.shown) = 1 /\ r.shown[1] \in ByBmc(r, q.n))
